@@ -138,7 +138,7 @@ def _quantize(x, scale, qname, mode):
     return SymmetricQuantizer.apply(x, qt, axis, scale)
 
 
-def judge(x, scale, q, dtname, qname, mode, want_idem=True):
+def judge(x, scale, q, dtname, qname, mode, want_idem=True, qtype_names=None):
     """Element-wise oracle. x: source tensor; scale: tensor broadcastable to x; q: library result.
 
     Returns (list of (sub, mask, extra_fields)), stats dict.
@@ -150,7 +150,7 @@ def judge(x, scale, q, dtname, qname, mode, want_idem=True):
     if not isinstance(q, QBytesTensor) or tuple(q.shape) != tuple(x.shape) or q.dtype != x.dtype or q._data.shape != x.shape:
         out.append(("meta", None, {"msg": f"result {type(q).__name__} shape {tuple(q.shape)} dtype {q.dtype} payload {tuple(q._data.shape)} for source {tuple(x.shape)} {x.dtype}"}))
         return out, stats
-    if q.qtype.name != qname:
+    if q.qtype.name not in (qtype_names or (qname,)):
         out.append(("meta", None, {"msg": f"qtype {q.qtype.name} != requested {qname}"}))
         return out, stats
     x64 = x.to(torch.float64)
